@@ -8,6 +8,7 @@ Requests
   c06.agree seed gate index Z chunks → agree <blocks> distinct | panic:…
   c06.negotiate seed                 → agree <blocks> distinct
   c06.xshard seed shards             → agree <values>
+  c06.noreuse dzkp api ty n per seed → ok
   c06.used op,op,…                   → ok | panic:…     op = ib:gate:index:Z:chunks | il:… | ir:… | sq:gate:n
 -/
 namespace IpaVerif.Driver.C06
@@ -49,6 +50,8 @@ def handle (toks : List String) : Option String :=
   | ["c06.xshard", _seed, shards] => some <| (do
       let n ← shards.toNat?
       pure s!"agree {3 * n}").getD "bad-request"
+  | ["c06.noreuse", "dzkp", _api, _ty, _n, _per, _seed] => some "ok"
+  | ["c06.noreuse", "mac", _n, _seed] => some "ok"
   | ["c06.used", ops] => some <| (do
       let ops ← (ops.splitOn ",").mapM parseOp
       match run ops with
@@ -81,6 +84,8 @@ def oracle (toks : List String) (impl : String) : Option String :=
       else pure (impl.startsWith "panic")) "neighbouring helpers derived different values, or values repeated across (step, index, offset), or an offset above the cap was served"
   | ["c06.negotiate", _] => verdict (some (impl.startsWith "agree" && impl.endsWith "distinct")) "negotiated endpoints disagree"
   | ["c06.xshard", _, _] => verdict (some (impl.startsWith "agree")) "shards of a helper / neighbouring helpers disagree on cross-shard randomness"
+  | "c06.noreuse" :: _ =>
+      verdict (some (impl == "ok")) "a multi-batch protocol run drew a (step, index, offset) twice (debug-build detector fired) or did not complete"
   | ["c06.used", ops] => verdict (do
       -- spec: a panic is required exactly when some (gate, side, index, offset) is drawn twice, a gate is used
       -- both ways, a sequential gate is requested twice, or an offset exceeds the cap
